@@ -3,6 +3,8 @@ package checks
 import (
 	"fmt"
 	"math/big"
+	"os"
+	"path/filepath"
 	"sort"
 	"strings"
 
@@ -154,3 +156,39 @@ func joinArgs(a []string) string { return strings.Join(a, " ") }
 type bigRat = big.Rat
 
 func absRat(r *big.Rat) *big.Rat { return new(big.Rat).Abs(r) }
+
+// raceReports reads the logs the race detector wrote for this run (GORACE log_path, set by check.sh) and turns
+// every distinct report that involves the repository's packages into a violation; a report that involves the
+// harness only is a harness error. Reports are de-duplicated by their outermost frames, line numbers stripped.
+func raceReports(c *core.Ctx, where string) {
+	files, _ := filepath.Glob(filepath.Join(c.Work, "race.*"))
+	reports := 0
+	seen := map[string]bool{}
+	for _, f := range files {
+		b, err := os.ReadFile(f)
+		if err != nil {
+			continue
+		}
+		for _, blk := range strings.Split(string(b), "==================") {
+			if !strings.Contains(blk, "WARNING: DATA RACE") {
+				continue
+			}
+			reports++
+			key := raceKey(blk)
+			if seen[key] {
+				continue
+			}
+			seen[key] = true
+			if strings.Contains(blk, "hranoprovod-cli/v3") {
+				c.Violation("race|"+key, "data race reported by the race detector in "+where+": "+clip(blk, 600), map[string]any{"report": blk})
+			} else {
+				c.HarnessError("data race inside the harness: " + clip(blk, 800))
+			}
+		}
+	}
+	c.Count("race_reports", reports)
+	c.Count("race_log_files", len(files))
+	if !raceEnabled {
+		c.Inconclusive("race-detector", "harness was not built with -race")
+	}
+}
